@@ -58,33 +58,42 @@ def _dispatcher(ctx):
 
 @rule("DISP-1", 20, "every ast.stmt class outside the supported set reaches an arm of the statement dispatcher that only raises NotImplementedError")
 def disp1(ctx) -> List[Ob]:
-    m, subj, arms, hier = _dispatcher(ctx)
+    m, subj, arms, hier0 = _dispatcher(ctx)
     out: List[Ob] = []
-    universe = hier.concrete_subclasses("stmt")
-    if len(universe) < 20:
-        raise AnalysisError("ast.stmt universe implausibly small")
+    from ..oracle import interpreters
+
+    hiers = [("", hier0)]
+    if ctx.tier == "thorough":
+        for exe in interpreters()[1:]:
+            d = oracle(exe)
+            hiers.append((f"py{d['version'][0]}.{d['version'][1]} ", AstHierarchy(d)))
     table = {}
-    for K in universe:
-        reached, certain = dispatch(arms, subj, K, hier.is_sub)
-        table[K] = [a.index for a in reached]
-        key = f"stmt class {K}"
-        where = ctx.where(m, reached[0].node if reached else m.node)
-        if K in SUPPORTED_STMTS:
-            out.append(ok("DISP-1", m.qualname, key, where, f"supported class reaches arm {table[K]}", nontrivial=False))
-            continue
-        if not certain:
-            out.append(unresolved("DISP-1", m.qualname, key, where, f"dispatch of ast.{K} depends on a test the evaluator cannot read (arms {table[K]})"))
-            continue
-        arm = reached[0]
-        if refusing_body(arm.body):
-            out.append(ok("DISP-1", m.qualname, key, where, f"ast.{K} -> arm {arm.index}: raise NotImplementedError"))
-        else:
-            what = A.unparse(arm.test)[:70] if arm.test is not None else "else"
-            out.append(bad("DISP-1", m.qualname, key, where,
-                           f"unsupported statement class ast.{K} reaches arm {arm.index} ({what}) which does not refuse it with NotImplementedError",
-                           [f"arm body: {A.unparse(ast.Module(arm.body, [])).splitlines()[0][:100]}"]))
+    for tag, hier in hiers:
+        universe = hier.concrete_subclasses("stmt")
+        if len(universe) < 20:
+            raise AnalysisError("ast.stmt universe implausibly small")
+        for K in universe:
+            out.append(_disp1_class(ctx, m, subj, arms, hier, tag, K, table))
     ctx.stats["DISP-1.table"] = table
     return out
+
+
+def _disp1_class(ctx, m, subj, arms, hier, tag, K, table) -> Ob:
+    reached, certain = dispatch(arms, subj, K, hier.is_sub)
+    table[tag + K] = [a.index for a in reached]
+    key = f"{tag}stmt class {K}"
+    where = ctx.where(m, reached[0].node if reached else m.node)
+    if K in SUPPORTED_STMTS:
+        return ok("DISP-1", m.qualname, key, where, f"supported class reaches arm {table[tag + K]}", nontrivial=False)
+    if not certain:
+        return unresolved("DISP-1", m.qualname, key, where, f"dispatch of ast.{K} depends on a test the evaluator cannot read (arms {table[tag + K]})")
+    arm = reached[0]
+    if refusing_body(arm.body):
+        return ok("DISP-1", m.qualname, key, where, f"ast.{K} -> arm {arm.index}: raise NotImplementedError")
+    what = A.unparse(arm.test)[:70] if arm.test is not None else "else"
+    return bad("DISP-1", m.qualname, key, where,
+               f"unsupported statement class ast.{K} reaches arm {arm.index} ({what}) which does not refuse it with NotImplementedError",
+               [f"arm body: {A.unparse(ast.Module(arm.body, [])).splitlines()[0][:100]}"])
 
 
 def _front_methods(ctx):
